@@ -5,4 +5,5 @@ Extraction "C08_m.ml" construct construct2 interpolate derivative interpolate2 l
   set_prefactor multiply integrate local_minimum local_maximum global_minimum global_maximum
   set_prefactor2 multiply2 global_minimum2 global_maximum2
   construct_rows construct_default construct2_default construct2_table
+  call1 call2 domain1 domain2
   integrate_loop knot_scan skeleton lstep st_get Z.of_nat Z.to_nat.
